@@ -219,6 +219,8 @@ def make_tasks(tier, seed):
   add(cfge, 'dy2', 'dry', 'rot3')
   add(cfg, 'dy2', 'dry', 'rot1', 'euler'); add(cfg, 'dy2', 'dry', 'mirror', 'leapfrog')
   # tight odd longitude grids (longitude_nodes == 2 M - 1: the real Fourier basis is exactly complete on the nodes), both implementations
+  cfgs = dict(M=3, L=4, nlon=9, nlat=5, impl='fast', base=1, stacked=True)          # stacked Fourier transforms (automatic for 129..256 wavenumbers)
+  add(cfgs, 'dy2', 'dry', 'rot2'); tasks.append(dict(name=f'sw-{grids.cfg_name(cfgs)}-rot5', fn='task_sw', kw=dict(cfg=cfgs, which='rot5')))
   cfgt = dict(M=3, L=4, nlon=5, nlat=5, impl='fast', base=1); cfgtr = dict(M=3, L=4, nlon=5, nlat=5)
   add(cfgt, 'dy2', 'dry', 'rot1'); add(cfgtr, 'dy2', 'dry', 'rot2')
   for c, w in ((cfg, 'rot1'), (cfg, 'mirror'), (cfgf, 'rot8'), (cfgf, 'mirror'), (cfgt, 'rot3'), (cfgt, 'mirror')):
